@@ -30,6 +30,12 @@
    "cgrow <name> <y> <m> <d> <h> <mi> <s> <ms>"   vol_create_file_grow on the selected chain with the current latch; the chain and
         the latch are kept for the next line -> "ok <first> <last> | exists | err <Variant> | panic | fuel", then
         " chain=<c1,c2,..> fi=<free|->,<next|->" (no digest: the following "poke" prints it)
+   directories in the fixed root (Model/VolDirTree.v), mounted as create / remove (status byte marked when something was written,
+   cleared by the unmount); the latch of "fi" is used and kept:
+   "mkdir <name> <y> <m> <d> <h> <mi> <s> <ms>"   vol_create_dir_root -> "ok <first> <last> <cluster> | exists | err <Variant> | panic | fuel",
+        then " fi=<free|->,<next|-> <digest>"
+   "rmdir <name>"                           vol_remove_root (a directory: vol_remove_dir_root; a file: Model/VolRemove.v)
+        -> "ok | err <Variant> | ..." then " fi=.. <digest>" | "na"
    "wf"                                     Spec/Wf.wf_issues (folding: Spec/WfFold.wf_fold with the loaded table) of the current
         image: "<count> <free clusters>: <Issue(..)> ..." *)
 open Conv
@@ -156,6 +162,28 @@ let line (t : string list) : string =
                            | Some (p, q) -> Printf.sprintf "ok %s %s" (string_of_n p) (string_of_n q)) r
          ^ " chain=" ^ String.concat "," (Stdlib.List.map string_of_n l')
          ^ " fi=" ^ opt_s fi'.Table.fi_free ^ "," ^ opt_s fi'.Table.fi_next)
+  | ["mkdir"; name; y; m; d; h; mi; s; ms] ->
+    let g = Abs.parse_geom !cur in
+    let s0 = VolStatus.vol_mount_status g !cur in
+    let (r, (im, fi')) = VolDirTree.vol_create_dir_root upper oem !cur !fi (name_of_hex name) (M_c18.mkdt y m d h mi s ms) in
+    let wrote = (match r with Base.Ok None -> false | _ -> not (im == !cur)) in
+    let (im1, s1) = VolStatus.marked g wrote im s0 in
+    let (im', _) = VolStatus.vol_unmount g im1 s1 in
+    cur := im'; fi := fi';
+    pre (res_tag (fun o -> match o with
+                           | None -> "exists"
+                           | Some ((p, q), c) -> Printf.sprintf "ok %s %s %s" (string_of_n p) (string_of_n q) (string_of_n c)) r
+         ^ " fi=" ^ opt_s fi'.Table.fi_free ^ "," ^ opt_s fi'.Table.fi_next ^ " " ^ digest ())
+  | ["rmdir"; name] ->
+    let g = Abs.parse_geom !cur in
+    let s0 = VolStatus.vol_mount_status g !cur in
+    (match VolDirTree.vol_remove_root upper oem !cur !fi (name_of_hex name) with
+     | None -> stale := true; "na"
+     | Some ((r, im), fi') ->
+       let (im1, s1) = VolStatus.marked g (VolStatus.res_ok r) im s0 in
+       let (im', _) = VolStatus.vol_unmount g im1 s1 in
+       cur := im'; fi := fi';
+       pre (res_tag (fun _ -> "ok") r ^ " fi=" ^ opt_s fi'.Table.fi_free ^ "," ^ opt_s fi'.Table.fi_next ^ " " ^ digest ()))
   | ["wf"] ->
     let iss = Wf.wf_issues (WfFold.wf_fold upper) !cur in
     pre (Printf.sprintf "%d %s: %s" (Stdlib.List.length iss) (string_of_n (Abs.count_free (Abs.parse_geom !cur) !cur))
